@@ -113,9 +113,9 @@ class VLoop(base_events.BaseEventLoop):
         except BaseException as e:  # noqa
             if isinstance(e, (SystemExit, KeyboardInterrupt)):
                 raise
-            self.call_soon(lambda: job.fut.done() or job.fut.set_exception(e))
+            self.call_soon(lambda exc=e: job.fut.done() or job.fut.set_exception(exc))
         else:
-            self.call_soon(lambda: job.fut.done() or job.fut.set_result(res))
+            self.call_soon(lambda res=res: job.fut.done() or job.fut.set_result(res))
 
     def complete_job(self, index: int = 0) -> bool:
         pending = [j for j in self.jobs if not j.done]
